@@ -2,7 +2,7 @@ import Qv.Proofs.PcboSlack
 /-!
 # C02: `_special_constraints_le_zero` and `add_constraint_le_zero`
 -/
-namespace Qv
+namespace Qv.PcboP
 
 /-! ## the offset of a dict is its value at the all-zero assignment -/
 
@@ -283,4 +283,4 @@ theorem specialLe_sem {s s' : St} {P : Poly} {lam : Rat} {lt : Bool} {lo hi : Ra
       rw [hv x] at hr
       rcases mon_bool hx kx with h0 | h0 <;> rcases mon_bool hx ky with h1 | h1 <;> rw [h0, h1] at hr ⊢ <;> (try norm_num at hr) <;> (try norm_num)
 
-end Qv
+end Qv.PcboP
